@@ -148,7 +148,7 @@ def e_tblop(o):
     if k == "create_index":
         return "(OCreateIndex %s %s %s %s)" % (e_cname(o["name"]), lst(o["exprs"], e_ix), opt(o["unique"], b), opt(o["if_not_exists"], b))
     if k == "drop_index":
-        return "(ODropIndex %s %s)" % (e_cname(o["name"]), opt(o["if_exists"], b))
+        return "(ODropIndex %s %s %s)" % (e_cname(o["name"]), opt(o["if_exists"], b), b(o["name_stable"]))
     if k == "create_unique":
         return "(OCreateUnique %s %s %s %s)" % (e_cname(o["name"]), lst(o["cols"], e_ident), opt(o["deferrable"], b), opt(o["initially"], S))
     if k == "create_fk":
@@ -401,6 +401,26 @@ def a_table(op):
             "if_not_exists": op.if_not_exists}
 
 
+CURRENT_NC = 0      # the naming convention of the case being run (set by run_case)
+
+
+def ix_name_stable(op):
+    """does the convention in force give the op's index the same name with the expressions it remembers (_reverse) as with the
+    dummy column DropIndexOp.to_index falls back to?  (an observation of the operation object, see Model/Render.v)"""
+    import sqlalchemy as sa
+    from alembic.operations import ops
+    from alembic.runtime.migration import MigrationContext
+    nc = nc_of(CURRENT_NC)
+    if not nc or op._reverse is None:
+        return True
+    ctx = MigrationContext.configure(dialect_name="postgresql", opts={"target_metadata": sa.MetaData(naming_convention=nc)})
+    with warnings.catch_warnings():
+        warnings.simplefilter("ignore")
+        a = op.to_index(ctx).name
+        c = ops.DropIndexOp(op.index_name, op.table_name, schema=op.schema).to_index(ctx).name
+    return (None if a is None else str(a)) == (None if c is None else str(c))
+
+
 def a_tri(v, f):
     if v is False:
         return "keep"
@@ -450,7 +470,7 @@ def a_tblop(op):
     if isinstance(op, ops.DropIndexOp):
         if {k: v for k, v in op.kw.items() if k != "unique"}:      # unique is carried by from_index and irrelevant to DROP INDEX
             raise OutsideUniverse("drop_index kw %r" % (op.kw,))
-        return {"k": "drop_index", "name": a_cname(op.index_name), "if_exists": op.if_exists}
+        return {"k": "drop_index", "name": a_cname(op.index_name), "if_exists": op.if_exists, "name_stable": ix_name_stable(op)}
     if isinstance(op, ops.CreateUniqueConstraintOp):
         kw = dict(op.kw)
         d, i = kw.pop("deferrable", None), kw.pop("initially", None)
